@@ -1,4 +1,5 @@
 import AffVerif.Proofs.ElimEffective
+import AffVerif.Proofs.ElimTerminals
 import AffVerif.Props.C05
 /-!
 # C06 — infeasible-path elimination is effective and idempotent
@@ -20,6 +21,14 @@ import AffVerif.Props.C05
 * `C06_swept_caches` — the swept tree also carries sound caches: every node still marked by a witness has a point
   within `tol` of all its path conditions (so its region is not empty by more than `tol`), every node marked
   infeasible has an empty region and no sibling.
+* Terminal count (last sentence of the property), for *every* solver that is right about "infeasible":
+  `C06_reached_terminal_kept` — the sweep keeps the identity (arena index and map) of the terminal every input reaches:
+  forwarding shortens paths, it never changes where they end; `C06_terminals_sublist` — it creates no terminal: the
+  terminals of the result are a sub-list (same order, index and map) of those of the original, for any oracles at all;
+  `C06_terminal_count_bounds` — hence `#terminals(result) ≤ #terminals(original)` and, for any family of inputs that
+  reach pairwise different terminals of the original tree (one interior point per full-dimensional activation region:
+  `C09_interior_routed`, `C09_terminal_interiors_disjoint`), `#inputs ≤ #terminals(result)`.  That a surviving terminal
+  has a non-empty closed region is the witness clause of `C06_swept_caches`.
 -/
 set_option linter.unusedSectionVars false
 set_option linter.unusedVariables false
@@ -58,6 +67,57 @@ theorem C06_swept_caches {σ : Type} (tol : α) (O : Oracles σ α) (hd : Decisi
     (hm : MirrorSound tol O.mirror) (n m : Nat) (t : PT α) (s : σ) (h : CacheOK tol n m t) :
     PT.SettledBelow (infeasibleElimination tol O n t s).1 ∧ CacheOK tol n m (infeasibleElimination tol O n t s).1 :=
   ⟨C06_sweep_settles tol O hd n t s, C05_elim tol O hlp hm n m t s h⟩
+
+/-- the terminal an input reaches keeps its arena index and its map -/
+theorem C06_reached_terminal_kept {σ : Type} (tol : α) (O : Oracles σ α) (hlp : InfeasibleSound O.lp)
+    (n m : Nat) (t : PT α) (s : σ) (x : List α) (ht : PT.Shaped 2 n m t) (hc : PT.InfSound [] t) :
+    (PT.findTerminal (infeasibleElimination tol O n t s).1 x).map (·.1) = (PT.findTerminal t x).map (·.1) ∧
+    PT.leafAt (infeasibleElimination tol O n t s).1 x = PT.leafAt t x := by
+  have hok := PT.elimOK_of_shaped t n m ht
+  refine ⟨?_, ?_⟩
+  · rw [← PT.obs_idx, ← PT.obs_idx]
+    exact PT.obs_infeasibleElimination _ tol O hlp n t s x hok hc
+  · rw [← PT.obs_aff, ← PT.obs_aff]
+    exact PT.obs_infeasibleElimination _ tol O hlp n t s x hok hc
+
+/-- the sweep creates no terminal (any oracles, any tree) -/
+theorem C06_terminals_sublist {σ : Type} (tol : α) (O : Oracles σ α) (n : Nat) (t : PT α) (s : σ) :
+    (PT.terminals (infeasibleElimination tol O n t s).1).Sublist (PT.terminals t) :=
+  PT.terminals_infeasibleElimination tol O n t s
+
+/-- bounds on the number of terminals of the swept tree: at most the terminals of the original; at least as many as
+    there are inputs that reach pairwise different terminals of the original (e.g. one interior point of every
+    full-dimensional region) -/
+theorem C06_terminal_count_bounds {σ : Type} (tol : α) (O : Oracles σ α) (hlp : InfeasibleSound O.lp)
+    (n m : Nat) (t : PT α) (s : σ) (ht : PT.Shaped 2 n m t) (hc : PT.InfSound [] t) (xs : List (List α))
+    (hdef : ∀ x ∈ xs, (PT.findTerminal t x).isSome)
+    (hdist : (xs.map (fun x => (PT.findTerminal t x).map (·.1))).Nodup) :
+    xs.length ≤ ITree.numTerminals (infeasibleElimination tol O n t s).1 ∧
+    ITree.numTerminals (infeasibleElimination tol O n t s).1 ≤ ITree.numTerminals t := by
+  refine ⟨?_, ?_⟩
+  · set t' := (infeasibleElimination tol O n t s).1 with ht'
+    have hsub : xs.map (fun x => (PT.findTerminal t x).map (·.1)) ⊆ (PT.terminals t').map (fun p => some p.1) := by
+      intro o ho
+      obtain ⟨x, hx, rfl⟩ := List.mem_map.1 ho
+      have hk := (C06_reached_terminal_kept tol O hlp n m t s x ht hc).1
+      have hsome := hdef x hx
+      cases hf : PT.findTerminal t x with
+      | none => simp [hf] at hsome
+      | some r =>
+        rw [hf] at hk
+        have : PT.obs (fun i _ => i) t' x = some r.1 := by rw [PT.obs_idx]; exact hk
+        obtain ⟨p, hp, hpe⟩ := PT.obs_mem _ t' x r.1 this
+        simp only [Option.map_some]
+        exact List.mem_map.2 ⟨p, hp, by rw [hpe]⟩
+    have := (List.subperm_of_subset hdist hsub).length_le
+    simpa [PT.terminals_length] using this
+  · have := (C06_terminals_sublist tol O n t s).length_le
+    simpa [PT.terminals_length] using this
+
+/-- non-vacuity of the hypotheses of `C06_terminal_count_bounds`: the two inputs 3 and −2 reach different terminals of
+    the ReLU tree, so its swept version has exactly two terminals whatever the solver does -/
+example : (∀ x ∈ [[(3 : Rat)], [-2]], (PT.findTerminal exRelu x).isSome) ∧
+    ([[(3 : Rat)], [-2]].map (fun x => (PT.findTerminal exRelu x).map (·.1))).Nodup := by decide +kernel
 
 /-- non-vacuity of `Decisive`: a backend that always answers (here: "unbounded") with a heuristic that never helps -/
 example {σ : Type} (tol : α) : Decisive tol (⟨fun s _ _ => (.unbounded, s), fun s _ _ _ _ => (none, s)⟩ : Oracles σ α) := by
